@@ -741,6 +741,18 @@ def _flag_sources(body, l, depth=0):
     return out
 
 
+def _known_variant(e):
+    """discr(literal field-less variant) / an integer constant: the variant index; else None."""
+    e = strip_refs(e)
+    if e.k == "const" and e.a[0][0] == "int":
+        return int(e.a[0][1])
+    if e.k == "discr":
+        x = strip_refs(e.a[0])
+        if x.k == "agg" and isinstance(x.t, dict) and "vidx" in x.t and not x.a[1]:
+            return x.t["vidx"]
+    return None
+
+
 def guards_of(body, bb, _depth=0):
     """All (discr E, polarity/values, switch_bb) whose edge dominates block bb.
     For bool switches polarity is True/False (looking through Not); for others the value tuple.
@@ -778,6 +790,60 @@ def guards_of(body, bb, _depth=0):
                         g = (e_, p_, setters[0][0])
                         if g not in out:
                             out.append(g)
+    # the same for a flag kept as a field-less variant of a private enum (`let mode = if on { Mode::A } else { Mode::B }; … if mode == Mode::A { X }`
+    # or `match mode { Mode::A => X, … }`): an edge that exactly one of the variant's literal assignments can take is guarded by what guards
+    # that assignment
+    if _depth < 3:
+        for s in body.rblocks:
+            t = body.blocks[s]["term"]
+            if t["k"] != "switch" or t["discr"]["k"] == "const":
+                continue
+            edges = [(node, vals, tgt) for (node, vals, tgt) in body.switch_edges(s) if body.dominates(node, bb) and node not in resolved]
+            if not edges:
+                continue
+            try:
+                d = strip_refs(body.expr_operand(t["discr"]))
+            except Exception:
+                continue
+            neg = False
+            while d.k == "un" and d.a[0] == "Not":
+                d = strip_refs(d.a[1])
+                neg = not neg
+            X, cmp_k, cmp_eq = None, None, None
+            if d.k == "discr":
+                X = strip_refs(d.a[0])
+            elif d.k == "bin" and d.a[0] in ("Eq", "Ne"):
+                l_, r_ = strip_refs(d.a[1]), strip_refs(d.a[2])
+                for a_, b_ in ((l_, r_), (r_, l_)):
+                    kb_ = _known_variant(b_)
+                    if a_.k == "discr" and kb_ is not None and _known_variant(a_) is None:
+                        X, cmp_k, cmp_eq = strip_refs(a_.a[0]), kb_, d.a[0] == "Eq"
+            if X is None or X.k != "phi":
+                continue
+            alts = [strip_refs(a_) for a_ in X.a[0]]
+            if len(alts) < 2 or not all(a_.k == "agg" and isinstance(a_.t, dict) and "vidx" in a_.t and not a_.a[1] and a_.t.get("adt") == alts[0].t.get("adt")
+                                       and not str(a_.t.get("adt", "")).startswith(("std::", "core::")) for a_ in alts):
+                continue
+            allv = tuple(v for v, _ in t["targets"])
+            pols = bool_switch_polarity(body, s) if t["discr_ty"] == "bool" else {}
+            for (node, vals, tgt) in edges:
+                if cmp_k is None:
+                    sat = [a_ for a_ in alts if (a_.t["vidx"] in vals if vals != "otherwise" else a_.t["vidx"] not in allv)]
+                else:
+                    pol = pols.get(node)
+                    if pol is None:
+                        continue
+                    # bool_switch_polarity already looks through the negations of the operand
+                    sat = [a_ for a_ in alts if (a_.t["vidx"] == cmp_k) == (pol == cmp_eq)]
+                if len(sat) != 1:
+                    continue
+                where = [i_ for i_ in body.rblocks for st_ in body.blocks[i_]["stmts"] if st_["k"] == "assign" and st_["rv"] is sat[0].t]
+                if len(where) != 1 or where[0] == s:
+                    continue
+                for g in guards_of(body, where[0], _depth + 1):
+                    if g not in out:
+                        out.append(g)
+                resolved.add(node)
     for s in body.rblocks:
         t = body.blocks[s]["term"]
         if t["k"] != "switch":
